@@ -12,5 +12,5 @@ Extraction "model.ml"
   sc_of_code cd_of_code mt_of_code et_of_code pa_of_code mt_code et_code pa_code
   sc_code cd_code decode_avp run utf8_valid
   default_opts strict_opts len m_decode_cost m_avps_cost
-  ch_dec ch_avps ch_dec_lim ch_avps_lim ch_type ch_enc ch_enca ch_hide ch_reveal ch_md5 show_avp show_msg show_err show_mres show_avpres show_dres
+  ch_dec ch_avps ch_dec_lim ch_avps_lim ch_dec_seam ch_avps_seam ch_type ch_enc ch_enca ch_hide ch_reveal ch_md5 show_avp show_msg show_err show_mres show_avpres show_dres
   N.of_nat N.to_nat N.add N.mul N.div_eucl N.eqb N.ltb.
